@@ -319,6 +319,10 @@ class StoreLib(LibBase):
                     for nm in EVENT_LISTS:
                         out.append(("I-belt.%s-distinct.%s" % (evn, nm),
                                     V.forall_idx(f[nm], lambda i, e: e.t != be, "belt-ev-distinct"), ("C12", "C07")))
+        if p["belt"]:
+            # the resume signal is a one-shot event: the one in the field is always the pending one
+            out.append(("I-belt.resume-event-pending", z3.Not(trig(st, f["resume_event"].t)), ("C12", "C20")))
+            out.append(("I-belt.own-events-distinct", f["resume_event"].t != f["ready_item_event"].t, ("C12", "C20")))
         if p["belt"] and cls == "C":
             out.append(("I-belt.items-carry-interruption-bookkeeping", V.forall_idx(It, lambda i, x: z3.And(
                 z3.Not(z3.Select(st.heap_arr("absent:total_interruption_time"), x.items[0].t)),
@@ -1032,13 +1036,65 @@ class StoreLib(LibBase):
                 is_generator=True, props=("C01", "C02", "C04", "C12"))
             mv.phase1 = phase1
             C["move_to_ready_items"] = mv
+            # resume_all_move_processes(): fires the pending resume signal and arms a new one
+            def post_resume(c):
+                o, n = c.old, c.new
+                return [Clause("pending-resume-signal-fired", lambda c: trig(n, o.f["resume_event"].t), ("C12",)),
+                        Clause("new-resume-signal-armed", lambda c: z3.And(n.f["resume_event"].t == o.next_id,
+                                                                          z3.Not(trig(n, n.f["resume_event"].t)),
+                                                                          n.next_id == o.next_id + 1), ("C12",)),
+                        Clause("nothing-else-triggered", lambda c: n.heap_arr("triggered") == z3.Store(z3.Store(
+                            o.heap_arr("triggered"), o.f["resume_event"].t, True), o.next_id, False), ("C12", "C07"))]
+            C["resume_all_move_processes"] = FnContract(
+                "resume_all_move_processes", [], post=post_resume, modifies=("resume_event",), heap_modifies=("triggered",),
+                uses_inv=True, keeps_inv=True, allocates=True, props=("C12", "C20"))
+            # interruption planning when the belt stalls / cancellation of planned interruptions when it moves again:
+            # pattern analysis over the belt (strings, numpy rounding), interrupt() on mover processes.  NOT verified:
+            # assumed to touch only the bookkeeping dictionaries (their effect is on *when* movers are interrupted)
+            bk = ("active_move_processes",) + (("active_delayed_interrupt_processes",) if cls == "C" else ())
+            for nm_, params_ in (("selective_interrupt", [("reason", ("opaque",), NONE)]),
+                                 ("interrupt_and_resume_all_delayed_interrupt_processes", [("reason", ("opaque",), NONE)])):
+                if nm_.startswith("interrupt_and") and cls != "C":
+                    continue
+                a_ = FnContract(nm_, params_, post=lambda c: [], uses_inv=False, keeps_inv=False, modifies=bk, props=("C12",))
+                a_.assumed = True
+                C[nm_] = a_
             # interruption planning for an item that enters a stalled belt: pattern analysis over the belt, delayed
             # interrupt processes, bookkeeping dictionaries.  NOT verified: assumed to touch none of the request
             # lists, items or ready items (its only effect is on which mover processes get interrupted when)
-            hn = FnContract("handle_new_item_during_interruption", [("item", item_kind, None)], post=lambda c: [],
-                            uses_inv=False, keeps_inv=False, modifies=("active_move_processes",)
-                            + (("active_delayed_interrupt_processes",) if cls == "C" else ()), props=("C12",))
-            hn.assumed = True
+            # helpers of the planner (pattern strings, numpy): assumed, results outside the model
+            for nm_, params_ in (("_get_belt_pattern", []),
+                                 ("_calculate_gap_based_interruptions", [("pattern", ("opaque",), None), ("item_positions", ("opaque",), None)]
+                                  + ([("belt_rep", ("opaque",), None)] if cls == "C" else [])),
+                                 ("_interrupt_specific_item", [("item_id", ("opaque",), None), ("reason", ("opaque",), None)])):
+                a_ = FnContract(nm_, params_, post=lambda c: [], uses_inv=False, keeps_inv=False, modifies=bk,
+                                result_kind=("opaque",) if nm_ != "_interrupt_specific_item" else ("none",), props=("C12",))
+                a_.assumed = True
+                C[nm_] = a_
+            di = FnContract("_delayed_interrupt", [("item_id", ("opaque",), None), ("delay", ("opaque",), None),
+                                                   ("reason", ("opaque",), None)], is_generator=True, props=("C12",))
+            di.assumed = True
+            C["_delayed_interrupt"] = di
+
+            # handle_new_item_during_interruption(item): how long the new item may still move is computed by the assumed
+            # planner; what IS verified: it touches none of the request lists / items, and every delayed interruption it
+            # starts is registered under the item's id in active_delayed_interrupt_processes -- the registry
+            # interrupt_and_resume_all_delayed_interrupt_processes() cancels from when the belt moves again
+            def registered_ok(c):
+                sp = [x for x in c.new.ghost.get("spawned", [])[len(c.old.ghost.get("spawned", [])):] if x[0] == "_delayed_interrupt"]
+                reg = c.new.ghost.get("registered", [])[len(c.old.ghost.get("registered", [])):]
+                for x in sp:
+                    pid = x[2] if len(x) > 2 else None
+                    if pid is None or not any(r[0] == "active_delayed_interrupt_processes" and isinstance(r[2], VObj)
+                                              and r[2].t.eq(pid) for r in reg):
+                        return False
+                return True
+            hn = FnContract("handle_new_item_during_interruption", [("item", item_kind, None)],
+                            post=lambda c: [Structural("every-delayed-interruption-it-starts-is-registered", registered_ok,
+                                                       ("C12",), caller_effect=lambda c: None)],
+                            uses_inv=False, keeps_inv=False, modifies=bk, props=("C12",))
+            if cls != "C":
+                hn.assumed = True       # (slotted store: same code shape, never reached: the slotted conveyor never stalls)
             C["handle_new_item_during_interruption"] = hn
 
         # ---- reserve_put_cancel
@@ -1338,6 +1394,11 @@ class StoreLib(LibBase):
             + [Clause("starts-empty." + nm, (lambda nm: lambda c: c.new.f[nm].len == 0)(nm), ("C01", "C02"))
                for nm in (QP, RP, QG, RG, RE, ITEMS) + ((RD, RI) if p["ready"] else ())]
             + ([Clause("mode-recorded", lambda c: c.new.f["mode"].t == c.args["mode"].t, ("C06",))] if p["lifo"] else [])
+            + ([Clause("slot-delay-recorded", lambda c: c.new.f["delay"].t == c.args["delay"].t, ("C12",))] if cls == "S" else [])
+            + ([Clause("speed-and-accumulation-flag-recorded", lambda c: z3.And(
+                c.new.f["speed"].t == c.args["speed"].t,
+                c.new.f["accumulation_mode_indicator"].t == c.args["accumulation_mode_indicator"].t), ("C12",))]
+               if cls == "C" else [])
             + ([Structural("starts-the-activation-process", lambda c: len(
                 [x for x in c.new.ghost.get("spawned", []) if x[0] == "fleet_activation_process"]) == 1, ("C14",))]
                if p["fleet"] else []),
@@ -1534,8 +1595,9 @@ class StoreLib(LibBase):
             if not isinstance(g, VGen):
                 raise Unsupported("env.process of %r" % (g,))
             s = st.fork()
-            s.ghost.setdefault("spawned", []).append((g.name, g.args))
-            return [(s.fresh_obj("proc"), s)]
+            p_ = s.fresh_obj("proc")
+            s.ghost.setdefault("spawned", []).append((g.name, g.args, p_.t))
+            return [(p_, s)]
         raise Unsupported("env.%s() at line %d" % (name, node.lineno))
 
     def call_obj(self, ex, base, name, args, kw, st, node):
